@@ -602,3 +602,17 @@ pub fn decode_escapes_opt(s: &str, keep_whitespace: bool) -> Result<String, Stri
     out.push_str(&s[pos..]);
     Ok(out)
 }
+
+/// Leftmost-first search by the regex crate's reference implementation (the PikeVM of regex-automata, the
+/// engine all optimised engines must agree with). Used to tell a defect of the subject from a defect of the
+/// optimised search path of the engine itself.
+pub fn pikevm_find(pat: &str, hay: &str) -> Result<Option<(usize, usize)>, String> {
+    use regex_automata::nfa::thompson::pikevm::PikeVM;
+    use regex_automata::util::syntax;
+    let vm = PikeVM::builder()
+        .syntax(syntax::Config::new().nest_limit(100_000))
+        .build(pat)
+        .map_err(|e| format!("{e}"))?;
+    let mut cache = vm.create_cache();
+    Ok(vm.find(&mut cache, hay).map(|m| (m.start(), m.end())))
+}
